@@ -44,6 +44,12 @@ from hypothesis import strategies as st
 CALENDARS = ["NYSE", "LSE", "SSE", "24/7"]
 Y_COLS = ["A", "B", "C"]
 X_COLS = ["f0", "f1", "f2", "f3"]
+X_COLS_NAMED = ["vix", "momentum", "carry", "basis"]       # labels that are NOT in sorted order
+
+
+def x_columns(case):
+    return (X_COLS_NAMED if case.get("x_named") else X_COLS)[:case["nx"]]
+
 RATE_NAME = "r"
 OBS_BOUND = 5.0
 
@@ -148,7 +154,7 @@ def tables_from_case(case):
         x[r, c] = np.nan
     for c, r0 in case.get("x_late", []):
         x[:r0, c] = np.nan
-    X = pd.DataFrame(x, index=index_of(case, case["x_days"]), columns=X_COLS[:nx])
+    X = pd.DataFrame(x, index=index_of(case, case["x_days"]), columns=x_columns(case))
     rate = None
     if case["rate_days"] is not None:
         k = len(case["rate_days"])
@@ -437,6 +443,7 @@ def cases(draw, tier="quick"):
         "x_offset": [draw(st.sampled_from([0.0, 0.0, 0.5, -2.0, 50.0])) for _ in range(nx)],
         "x_jump": [[draw(st.integers(8, max(8, m - 1))), draw(st.sampled_from([1.0, 1.0, 25.0, 0.04]))] for _ in range(nx)],
         "y_nan": y_nan, "x_nan": x_nan,
+        "x_named": draw(st.sampled_from([False, True])),
         # a feature column that only starts late (leading NaNs up to a row possibly far into the episode); only without a
         # transformer to fit (an all-NaN fit sample is outside what the power transform accepts)
         "x_late": ([[draw(st.integers(0, nx - 1)), draw(st.integers(2, max(2, m - 2)))]]
